@@ -118,6 +118,15 @@ def run(chk):
         cases.append(("F%d" % i, ["newcompiler", "ns nsA", "add " + hx((imp + other_gate + first).encode()), "ns nsB", "add " + hx(gate.encode()),
                                   "ns nsA", "add " + hx(b"rule later { condition: true }\n"), "ns nsB", "add " + hx(target.encode()),
                                   "getrules", "scanner 0"] + scans))
+        # H/I: rule sets with a wildcard (`all of (pk_*)`) select rules of their OWN namespace only: namespace nsB alone (H) vs after a
+        # namespace nsA that has rules with the same prefix and other verdicts (I)
+        pk = "rule pk_1 { condition: filesize > %d }\nrule pk_2 { condition: true }\n" % r.choice([20, 40, 60])
+        users = ("rule all_pk { condition: all of (pk_*) }\nrule any_pk { condition: any of (pk_*) }\nrule none_pk { condition: none of (pk_*) }\n"
+                 "rule two_pk { condition: 2 of (pk_*) }\nrule named { condition: any of (pk_1, pk_2) }\n")
+        foreign = "rule pk_0 { condition: false }\nrule pk_3 { condition: true }\nrule pk_9 { condition: filesize < 30 }\n"
+        cases.append(("H%d" % i, ["newcompiler", "ns nsB", "add " + hx((pk + users).encode()), "getrules", "scanner 0"] + scans))
+        cases.append(("I%d" % i, ["newcompiler", "ns nsA", "add " + hx(foreign.encode()), "ns nsB", "add " + hx((pk + users).encode()),
+                                  "getrules", "scanner 0"] + scans))
         meta[i] = (target, others, bufs, imp)
     out, err = vlib.run_cases(hscan, cases, timeout=3000, jobs=16)
     agree = 0
@@ -168,6 +177,22 @@ def run(chk):
                         break
                     if re_ and re_[0] == "N" and res["A"][bi] and res["A"][bi][0] == "M":
                         chk.add("gate_false_target_true")
+        if not bad:
+            lh = [l for l in out.get("H%d" % i, []) if l.startswith("scan msgs=")]
+            li = [l for l in out.get("I%d" % i, []) if l.startswith("scan msgs=")]
+            if len(lh) != len(bufs) or len(li) != len(bufs):
+                chk.violation("run", "rule-set variants did not run: %s / %s" % (out.get("H%d" % i, [])[-2:], out.get("I%d" % i, [])[-2:]), {}, found_input=False)
+                bad = True
+            else:
+                for bi in range(len(bufs)):
+                    vh = sorted(re.findall(r"M:nsB:(\w+)", lh[bi]))
+                    vi = sorted(re.findall(r"M:nsB:(\w+)", li[bi]))
+                    if vh != vi:
+                        chk.violation("company:rule-set-wildcard", "rules of namespace nsB matching alone: %s ; after a namespace with rules of the same prefix: %s" % (vh, vi),
+                                      {"buffer_hex": hx(bufs[bi]), "alone": lh[bi][:300], "company": li[bi][:300],
+                                       "how": "h_scan cases H/I of checks/c05.py: [ns nsA; add pk_0/pk_3/pk_9;] ns nsB; add pk_1, pk_2 and rules using (pk_*)"})
+                        bad = True
+                        break
         if not bad:
             agree += 1
             nontriv.add((len(others), tuple(x[0] if x else "?" for x in res["A"])))
